@@ -252,10 +252,15 @@ def ask_join(run, f, sp):
     #   Ok(J.map_err(|e| Error::Join{..})?)                  and   match J { Ok(v) => Ok(v), Err(e) => Err(Error::Join{source: e}) }
     def is_J(t):
         t = norm_try(tr, t)
-        if t[0] == "await" and t[1][0] == "try_ok":
-            inner = strip_wrappers(t[1][1])
-            return inner[0] == "await" and asks and strip_wrappers(inner[1]) == ("call", asks[0].idx, "actor_ref::ActorRef::<T>::ask")
-        return False
+        if t[0] != "await":
+            return False
+        h = strip_wrappers(t[1])
+        inner = None
+        if h[0] == "try_ok":
+            inner = strip_wrappers(h[1])                       # self.ask(msg).await?
+        elif h[0] == "field" and h[1] == 0 and h[2][0] == "downcast" and h[2][1] == "Ok":
+            inner = strip_wrappers(h[2][2])                    # match self.ask(msg).await { Ok(h) => h, Err(e) => return Err(e) }
+        return inner is not None and inner[0] == "await" and bool(asks) and strip_wrappers(inner[1]) == ("call", asks[0].idx, "actor_ref::ActorRef::<T>::ask")
     oks = [t for t in subterms(ret) if t[0] == "agg" and t[1][:3] == ("adt", "std::result::Result", "Ok")]
     good = False
     for t in oks:
@@ -267,6 +272,13 @@ def ask_join(run, f, sp):
         v = strip_wrappers(v)
         if v[0] == "field" and v[1] == 0 and v[2][0] == "downcast" and v[2][1] == "Ok" and is_J(v[2][2]):
             good = True
+    # when the handle is taken by an explicit match (not `?`), the other arm must hand the ask's own error on unchanged
+    ask_aw = [t for t in subterms(ret) if t[0] == "await" and strip_wrappers(t[1]) == ("call", asks[0].idx, "actor_ref::ActorRef::<T>::ask")] if asks else []
+    uses_match = any(t[0] == "field" and t[1] == 0 and t[2][0] == "downcast" and t[2][1] == "Ok" and t[2][2] in ask_aw for t in subterms(ret))
+    if uses_match:
+        passes_on = any(t[0] == "agg" and t[1][:3] == ("adt", "std::result::Result", "Err") and t[2] and strip_wrappers(t[2][0])[0] == "field" and strip_wrappers(t[2][0])[1] == 0 and
+                        strip_wrappers(t[2][0])[2][0] == "downcast" and strip_wrappers(t[2][0])[2][1] == "Err" and strip_wrappers(t[2][0])[2][2] in ask_aw for t in subterms(ret))
+        run.require(passes_on, "O3.5", "ask_join-passes-ask-error-on", "ask_join matches on the result of ask but does not return the ask's error unchanged in the Err arm", "Err(e) of ask is returned as Err(e)")
     run.require(good, "O3.5", "ask_join-returns-task-output", "ask_join does not return Ok(<output of awaiting the JoinHandle returned by ask>): %s" % show(ret),
                 "Ok(<output of the awaited JoinHandle that self.ask(msg).await? returned>)")
     joins = [(s, fl) for s, v, fl, _ in sp.errors if v == "Join"]
